@@ -33,6 +33,83 @@ def _model_env(model, bs):
     return env
 
 
+def hard_query(zs, names, timeout_s, rlimit=None):
+    """check-sat of the z3 assertions zs in a forked child that is killed after timeout_s wall seconds
+    (z3's own timeout / rlimit are cooperative and are not honoured inside long nlsat polynomial operations).
+    returns (verdict, env) with env: variable name -> Fraction for the names requested (sat only)."""
+    import json
+    import select
+    import signal as _sig
+    r, w = os.pipe()
+    pid = os.fork()
+    if pid == 0:
+        try:
+            os.close(r)
+            _sig.signal(_sig.SIGALRM, _sig.SIG_DFL)
+            _sig.alarm(0)
+            sv = z3.Solver()
+            sv.set("timeout", int(timeout_s * 1000))
+            if rlimit:
+                sv.set("rlimit", rlimit)
+            for a in zs:
+                sv.add(a)
+            res = str(sv.check())
+            env = {}
+            if res == "sat":
+                m = sv.model()
+                for nm in names:
+                    val = m.eval(z3.Real(nm), model_completion=True)
+                    if z3.is_rational_value(val):
+                        env[nm] = "%d/%d" % (val.numerator_as_long(), val.denominator_as_long())
+                    elif z3.is_algebraic_value(val):
+                        a = val.approx(40)
+                        env[nm] = "%d/%d" % (a.numerator_as_long(), a.denominator_as_long())
+            os.write(w, json.dumps([res, env]).encode())
+        except BaseException as e:   # noqa
+            try:
+                os.write(w, json.dumps(["unknown", {"_error": repr(e)[:200]}]).encode())
+            except Exception:
+                pass
+        finally:
+            os._exit(0)
+    os.close(w)
+    data = b""
+    deadline = time.time() + timeout_s + 1.0
+    verdict, env = "unknown", None
+    try:
+        while True:
+            left = deadline - time.time()
+            if left <= 0:
+                break
+            ready, _, _ = select.select([r], [], [], left)
+            if not ready:
+                break
+            chunk = os.read(r, 1 << 16)
+            if not chunk:
+                break
+            data += chunk
+        if data:
+            res, e = json.loads(data.decode())
+            verdict = res
+            env = {k: Fraction(v) for k, v in e.items() if not k.startswith("_")} if res == "sat" else None
+    except Exception:
+        verdict, env = "unknown", None
+    finally:
+        os.close(r)
+        try:
+            os.kill(pid, 9)
+        except ProcessLookupError:
+            pass
+        try:
+            os.waitpid(pid, 0)
+        except ChildProcessError:
+            pass
+    return verdict, env
+
+
+WALL_S = float(os.environ.get("SYMSIG_WALL_S", "60"))
+
+
 def decide(pc, obl, rlimit=None, timeout_ms=None):
     """pc: list of B (path condition); obl: B that must hold.  returns (verdict, env, secs)
     verdict: 'unsat' (obligation holds for every value on this path), 'sat', 'unknown'"""
@@ -44,19 +121,13 @@ def decide(pc, obl, rlimit=None, timeout_ms=None):
             STATS["unsat"] += 1
             return "unsat", None, 0.0
     t = time.time()
-    s = z3.Solver()
-    s.set("timeout", timeout_ms or TIMEOUT_MS)
-    s.set("rlimit", rlimit or RLIMIT)
-    for b in pc:
-        s.add(b.z3())
-    s.add(neg.z3())
-    r = str(s.check())
+    names = set()
+    for b in list(pc) + [neg]:
+        names |= {A.var_name(v) for v in b.vars()}
+    r, env = hard_query([b.z3() for b in pc] + [neg.z3()], sorted(names), (timeout_ms / 1000.0) if timeout_ms else WALL_S, rlimit or RLIMIT)
     dt = time.time() - t
     STATS["time"] += dt
     STATS[r] = STATS.get(r, 0) + 1
-    env = None
-    if r == "sat":
-        env = _model_env(s.model(), list(pc) + [neg])
     return r, env, dt
 
 
